@@ -644,6 +644,11 @@ func (d *partialDoc) remove(key string, options *ApplyOptions) error {
 // set should only be used to implement the "replace" operation, so "key" must
 // be an already existing index in "d".
 func (d *partialArray) set(key string, val *lazyNode, options *ApplyOptions) error {
+	if d == nil {
+		// the document was replaced by null: there is no array to work on
+		return ErrInvalid
+	}
+
 	idx, err := strconv.Atoi(key)
 	if err != nil {
 		return err
@@ -664,6 +669,11 @@ func (d *partialArray) set(key string, val *lazyNode, options *ApplyOptions) err
 }
 
 func (d *partialArray) add(key string, val *lazyNode, options *ApplyOptions) error {
+	if d == nil {
+		// the document was replaced by null: there is no array to work on
+		return ErrInvalid
+	}
+
 	if key == "-" {
 		d.nodes = append(d.nodes, val)
 		return nil
@@ -703,6 +713,11 @@ func (d *partialArray) add(key string, val *lazyNode, options *ApplyOptions) err
 }
 
 func (d *partialArray) get(key string, options *ApplyOptions) (*lazyNode, error) {
+	if d == nil {
+		// the document was replaced by null: there is no array to work on
+		return nil, ErrInvalid
+	}
+
 	if key == "" {
 		return d.self, nil
 	}
@@ -731,6 +746,11 @@ func (d *partialArray) get(key string, options *ApplyOptions) (*lazyNode, error)
 }
 
 func (d *partialArray) remove(key string, options *ApplyOptions) error {
+	if d == nil {
+		// the document was replaced by null: there is no array to work on
+		return ErrInvalid
+	}
+
 	idx, err := strconv.Atoi(key)
 	if err != nil {
 		return err
@@ -1085,8 +1105,11 @@ func (p Patch) test(doc *container, op Operation, options *ApplyOptions) error {
 			self.doc = sv
 			self.which = eDoc
 		case *partialArray:
-			self.ary = sv
-			self.which = eAry
+			// a nil array is a document that was replaced by null
+			if sv != nil {
+				self.ary = sv
+				self.which = eAry
+			}
 		}
 
 		if self.equal(op.value()) {
